@@ -29,8 +29,8 @@ import tlaval  # noqa: E402
 
 LEVEL = 'model_checking'
 
-BAD_SC = ['empty', 'crash', 'signal', 'garbage']
-BAD_PY = ['empty', 'signal']
+BAD_SC = ['empty', 'crash', 'signal', 'garbage', 'sigout']
+BAD_PY = ['empty', 'signal', 'sigout']
 
 
 def parse_mism(out):
@@ -180,8 +180,10 @@ def run(ck, tier):
     rs = vplib.run_tlc('ToolInput', 'ToolInput_shell.cfg', dump='vectors', timeout=600, name='shell')
     ck.add_tlc('ToolInput: effective shell, all (step, job, workflow, runner) combinations', rs)
     rz = vplib.run_tlc('ToolInput', 'ToolInput_san.cfg', dump='vectors', timeout=600, name='san')
-    ck.add_tlc('ToolInput: Sanitize, all scripts over {$,{,},a} up to length 6', rz)
-    for x in (rs, rz):
+    ck.add_tlc('ToolInput: Sanitize, all scripts over {$,{,},LF} up to length 6', rz)
+    rz2 = vplib.run_tlc('ToolInput', 'ToolInput_san2.cfg', dump='vectors', timeout=600, name='san2')
+    ck.add_tlc('ToolInput: Sanitize, all scripts over {$,{,},a} up to length 5', rz2)
+    for x in (rs, rz, rz2):
         if x.violated:
             raise Inconclusive('ToolInput.tla violates %s (model level)' % x.violated)
     # ------------------------------------------------------------------ G/T: process pool
@@ -254,7 +256,7 @@ def run(ck, tier):
     ck.cov['caps_exercised'] = sorted({r_['cap'] for r_ in all_res})
     ck.sample({'scenario': scs[0], 'first_events': (all_res[0]['events'] or [])[:12]})
     # ------------------------------------------------------------------ G: shell routing and stdin bytes
-    tool_input_part(ck, sd, rs, rz, tier)
+    tool_input_part(ck, sd, rs, [rz, rz2], tier)
     ck.cov['distinct_nontrivial'] += ck.cov['pool_runs_fatal'] + ck.cov.get('shell_vectors', 0)
     ck.cov['rule'] = ('pool: configurations = initial states of ProcPool (task layout x outcome pattern), each run with seeded '
                       'tool latencies and hook delays under Cap 1, 2 and NumCPU; shell: all 1024 (step, job, workflow, runner) '
@@ -278,7 +280,9 @@ def run(ck, tier):
 
 def tool_input_part(ck, sd, rs, rz, tier):
     shell_vecs = [v for v in vplib.read_dump_json(os.path.join(rs.dir, 'vectors.dump')) if v.get('kind') == 'shell']
-    san_vecs = [v for v in vplib.read_dump_json(os.path.join(rz.dir, 'vectors.dump')) if v.get('kind') == 'sanitize']
+    san_vecs = []
+    for rzx in rz:
+        san_vecs += [v for v in vplib.read_dump_json(os.path.join(rzx.dir, 'vectors.dump')) if v.get('kind') == 'sanitize']
     scs = []
     expect = {}
     sid = 100000
@@ -313,10 +317,10 @@ def tool_input_part(ck, sd, rs, rz, tier):
         for k, v in enumerate(batch[b0:b0 + 24]):
             tok = 'Z%dK%d' % (sid, k)
             py = (b0 + k) % 3 == 2
-            body = '# tok=%s\n' % tok + ''.join(v['s'])
+            body = '# tok=%s\n' % tok + ''.join(v['s']).replace('N', '\n') + '\n# end'
             steps.append({'tok': tok, 'shell': 'python' if py else '', 'script': body})
             plan[tok] = {'outcome': 'ok', 'delay_ms': 0, 'n': 0}
-            want = '# tok=%s\n' % tok + ''.join(v['out']) + '\n'
+            want = '# tok=%s\n' % tok + ''.join(v['out']).replace('N', '\n') + '\n# end\n'
             expect[tok] = {'tool': 'py' if py else 'sc:bash', 'stdin': want if py else 'set -eo pipefail\n' + want + '\n', 'vec': v}
         scs.append({'id': sid, 'files': [{'default_shell': '', 'jobs': [{'default_shell': '', 'runs_on': '', 'steps': steps}]}],
                     'plan': plan, 'nostart': '', 'hook_delay_us': 0, 'single': True})
